@@ -72,6 +72,7 @@ type case = {
   ckhash : BinNums.coq_N;
   s : EI.table;
   t : EI.table;
+  files : string list;              (* F: one entry per start *)
   hashf : EI.src -> BinNums.coq_N;
 }
 
@@ -101,53 +102,43 @@ let parse_case (input : string) : case =
     | [a; b] -> z_of_string a, n_of_string b | _ -> failwith "P" in
   { ops; bsz = int_of_string (get "b");
     genesis = (match read_table (get "G") with (r, _) :: _ -> Some r | [] -> None);
-    ckh; ckhash; s = read_table (get "S"); t = read_table (get "T"); hashf }
+    ckh; ckhash; s = read_table (get "S"); t = read_table (get "T");
+    files = (match get "F" with "-" | "" -> [] | f -> S.split_on_char '@' f); hashf }
 
-(* ---- the file editing operations (mirror of the harness) ---- *)
-type fstate = FOk | FNone
+(* ---- the prepared file of each start: the harness passes the records as encoding/csv in its default
+   configuration reads the bytes it wrote (F=..), relative to the exported file ---- *)
+type fspec = Same | Nofile | Recs of string list list
 
-let rec take n l = if n <= 0 then [] else match l with [] -> [] | x :: r -> x :: take (n - 1) r
-let rec drop n l = if n <= 0 then l else match l with [] -> [] | _ :: r -> drop (n - 1) r
-let num w i = match L.nth_opt w i with Some s -> (try int_of_string s with _ -> -1) | None -> -1
-let arg w i = match L.nth_opt w i with Some s -> s | None -> ""
-let mapi_at i f l = L.mapi (fun j x -> if j = i then f x else x) l
+let pct_decode f =
+  let b = Buffer.create (S.length f) in
+  let n = S.length f in
+  let i = ref 0 in
+  while !i < n do
+    if S.get f !i = '%' && !i + 2 <= n - 1 then begin
+      Buffer.add_char b (Char.chr (int_of_string ("0x" ^ S.sub f (!i + 1) 2))); i := !i + 3
+    end else begin Buffer.add_char b (S.get f !i); incr i end
+  done;
+  Buffer.contents b
 
-let edit (good : string list list) (file, st) (w : string list) =
-  let len = L.length file in
-  match L.hd w with
-  | "kset" ->
-    let r = num w 1 + 1 and c = num w 2 in
-    if r >= 1 && r < len && c >= 0 && c < L.length (L.nth file r)
-    then (mapi_at r (mapi_at c (fun _ -> dec (arg w 3))) file, st) else (file, st)
-  | "kdelcol" ->
-    let r = num w 1 + 1 and c = num w 2 in
-    if r >= 1 && r < len && c >= 0 && c < L.length (L.nth file r) && L.length (L.nth file r) > 1
-    then (mapi_at r (fun rc -> take c rc @ drop (c + 1) rc) file, st) else (file, st)
-  | "kaddcol" ->
-    let r = num w 1 + 1 in
-    if r >= 1 && r < len then (mapi_at r (fun rc -> rc @ [dec (arg w 2)]) file, st) else (file, st)
-  | "kallcols" ->
-    let n = num w 1 in
-    if n >= 1 then (L.map (fun rc -> take n (rc @ L.init (max 0 (n - L.length rc)) (fun _ -> "0"))) file, st) else (file, st)
-  | "kdelrow" ->
-    let r = num w 1 + 1 in
-    if r >= 1 && r < len then (take r file @ drop (r + 1) file, st) else (file, st)
-  | "kduprow" ->
-    let r = num w 1 + 1 in
-    if r >= 1 && r < len then (take (r + 1) file @ [L.nth file r] @ drop (r + 1) file, st) else (file, st)
-  | "kaddrow" ->
-    if len > 0 then (file @ [L.map dec (S.split_on_char ',' (arg w 1))], st) else (file, st)
-  | "ktrunc" ->
-    let n = num w 1 in
-    if n >= 0 && n + 1 < len then (take (n + 1) file, st) else (file, st)
-  | "knohdr" -> ((match file with [] -> [] | _ :: r -> r), st)
-  | "kempty" -> ([], st)
-  | "knofile" | "kgarbage" -> (file, FNone)
-  | "kfix" -> (good, FOk)
-  | _ -> (file, st)
+let read_rec r = L.map pct_decode (S.split_on_char ',' r)
 
-let coq_file (file, st) : EI.file option =
-  match st with FNone -> None | FOk -> Some (L.map (L.map cstr) file)
+(* the file of one start, given the exported file *)
+let file_of (good : string list list) (spec : string) : fspec * string list list =
+  if spec = "*" then (Same, good)
+  else if spec = "!" then (Nofile, [])
+  else match S.split_on_char '/' spec with
+    | "f" :: recs -> let r = L.map read_rec recs in (Recs r, r)
+    | hd :: diffs when S.length hd > 1 && S.get hd 0 = 'd' ->
+      let tbl = Hashtbl.create 16 in
+      L.iter (fun d -> match S.index_opt d ':' with
+          | Some i -> Hashtbl.replace tbl (int_of_string (S.sub d 0 i)) (read_rec (S.sub d (i + 1) (S.length d - i - 1)))
+          | None -> failwith "F diff") diffs;
+      let r = L.mapi (fun i g -> match Hashtbl.find_opt tbl i with Some x -> x | None -> g) good in
+      (Recs r, r)
+    | _ -> failwith ("F " ^ spec)
+
+let coq_file (fs, recs) : EI.file option =
+  match fs with Nofile -> None | _ -> Some (L.map (L.map cstr) recs)
 
 let start c prepared tbl fopt =
   match c.genesis with
@@ -161,14 +152,15 @@ let model input =
   let c = parse_case input in
   let good = L.map (L.map ostr) (EI.export_db c.s) in
   let obs = ref ["X=" ^ show_recs good] in
-  let fs = ref (good, FOk) and tbl = ref c.t in
+  let tbl = ref c.t and files = ref c.files in
   L.iter (fun w ->
       match L.hd w with
       | "i" | "iu" ->
-        let (ok, t') = start c (L.hd w = "i") !tbl (coq_file !fs) in
+        let f = (match !files with x :: r -> files := r; x | [] -> failwith "F: too few files") in
+        let (ok, t') = start c (L.hd w = "i") !tbl (coq_file (file_of good f)) in
         tbl := t';
         obs := ("I=" ^ (if ok then "ok" else "err") ^ ":" ^ show_table t') :: !obs
-      | _ -> fs := edit good !fs w) c.ops;
+      | _ -> ()) c.ops;
   S.concat "|" (L.rev !obs)
 
 (* ---- spec oracle on the implementation's observable ---- *)
@@ -192,7 +184,7 @@ let spec input obs =
                          && EI.records_denote (L.map (L.map cstr) recs) longest
         | [] -> false) then "FAIL export-mismatch" else
     let expected_rt = L.map (fun r -> (r, EI.st_longest)) longest in
-    let fs = ref (good, FOk) and edited = ref false in
+    let fs = ref (Same, good) and edited = ref false and files = ref c.files in
     let ck_good = (match L.nth_opt longest (try int_of_z c.ckh with _ -> -1) with
         | Some r -> r.EI.x_hash = c.ckhash | None -> false) in
     (* table state as observed: contents + whether it is legitimate (initial content, result of a
@@ -204,6 +196,9 @@ let spec input obs =
     L.iter (fun w ->
         match L.hd w with
         | "i" | "iu" ->
+          (match !files with
+           | f :: r -> files := r; fs := file_of good f; edited := (fst !fs <> Same)
+           | [] -> fail "malformed-input missing-file");
           (match !starts with
            | [] -> fail "malformed-observable missing-start"
            | st :: rest ->
@@ -238,14 +233,12 @@ let spec input obs =
                     if not (EI.table_matches_file c.hashf t' (coq_file !fs) c.ckh c.ckhash) then fail "accepted-table-does-not-match-file"
                     else if not !edited && t' <> expected_rt then fail "roundtrip-mismatch"
                   end else begin
-                    if not !edited && snd !fs = FOk && ck_good then fail "roundtrip-refused";
+                    if not !edited && ck_good then fail "roundtrip-refused";
                     if t' <> [] then tainted := true
                   end;
                   tbl := t'
                 end))
-        | "kfix" -> fs := edit good !fs w; edited := false
-        | "p" | "tg" | "tc" -> ()
-        | _ -> fs := edit good !fs w; edited := true) c.ops;
+        | _ -> ()) c.ops;
     !verdict
 
 (* ---- main: the cases are spread over worker processes (the long-chain cases cost about half a second
@@ -271,7 +264,7 @@ let () =
     let cases = Sys.argv.(1) and impl = Sys.argv.(2) and mout = Sys.argv.(3) and sout = Sys.argv.(4) in
     let lines = Array.of_list (read_lines cases) in
     let n = Array.length lines in
-    let workers = try int_of_string (Sys.getenv "C17_WORKERS") with _ -> 8 in
+    let workers = try int_of_string (Sys.getenv "C17_WORKERS") with _ -> 12 in
     let k = max 1 (min workers (n / 20 + 1)) in
     if k = 1 then run_driver model spec else begin
       let part f i = Printf.sprintf "%s.part%d" f i in
